@@ -106,3 +106,62 @@ Fixpoint page_events (pages : list (list line)) : list pevent :=
     | _ => map PPrint p ++ PAskContinue :: page_events rest
     end
   end.
+
+(* ---- the same, with the typed lines made explicit ----------------------------------------
+   _ask_user_input_blocking(prompt) writes the prompt and reads ONE line from the user (InputHandler:
+   one input() call); its value is dropped by _print_widget.  [typed] is the list of lines the user
+   types, in order.  The run ends PgDone (loop finished), PgBlocked (a prompt was written and no typed
+   line is available: the call does not return) or PgOutOfFuel (as POutOfFuel above).
+   proofs/PagingProofs.v: print_widget_in agrees with print_widget on the events (paging_in_spec). *)
+Inductive pstatus := PgDone | PgBlocked | PgOutOfFuel.
+Record prun := { pr_events : list pevent;      (* what was written, prompts included *)
+                 pr_left : list line;          (* the typed lines not consumed *)
+                 pr_status : pstatus }.
+
+Definition pr_prepend (evs : list pevent) (r : prun) : prun :=
+  {| pr_events := evs ++ pr_events r; pr_left := pr_left r; pr_status := pr_status r |}.
+
+Fixpoint page_loop_in (fuel : nat) (lines : list line) (pos last_line real_screen_height screen_height : Z)
+         (typed : list line) : prun :=
+  if pos <=? last_line then
+    match fuel with
+    | O => {| pr_events := [POutOfFuel]; pr_left := typed; pr_status := PgOutOfFuel |}
+    | S f =>
+      if pos + real_screen_height >? last_line then
+        pr_prepend (map PPrint (py_slice_from lines pos))
+          (page_loop_in f lines (pos + (screen_height - 1)) last_line real_screen_height screen_height typed)
+      else
+        let page := map PPrint (py_slice lines pos (pos + real_screen_height)) ++ [PAskContinue] in
+        match typed with
+        | [] => {| pr_events := page; pr_left := []; pr_status := PgBlocked |}
+        | _ :: typed' =>                      (* the line is read and ignored, whatever it contains *)
+          pr_prepend page
+            (page_loop_in f lines (pos + real_screen_height) last_line real_screen_height screen_height typed')
+        end
+    end
+  else {| pr_events := []; pr_left := typed; pr_status := PgDone |}.
+
+Definition print_widget_in (lines : list line) (screen_height : Z) (typed : list line) : prun :=
+  let num_lines := Z.of_nat (length lines) in
+  if num_lines =? 0 then {| pr_events := []; pr_left := typed; pr_status := PgDone |}
+  else
+    let real_screen_height := screen_height - 2 in
+    if num_lines <? real_screen_height then
+      {| pr_events := map PPrint lines; pr_left := typed; pr_status := PgDone |}
+    else
+      page_loop_in (S (length lines)) lines 0 (num_lines - 1) real_screen_height screen_height typed.
+
+(* the events up to and including the (k+1)-th press-ENTER prompt *)
+Fixpoint upto_ask (k : nat) (evs : list pevent) : list pevent :=
+  match evs with
+  | [] => []
+  | PAskContinue :: r => PAskContinue :: match k with O => [] | S k' => upto_ask k' r end
+  | e :: r => e :: upto_ask k r
+  end.
+
+(* what the run with typed lines is, in terms of the events of the run without *)
+Definition in_spec (evs : list pevent) (typed : list line) : prun :=
+  if (count_asks evs <=? length typed)%nat
+  then {| pr_events := evs; pr_left := skipn (count_asks evs) typed;
+          pr_status := if existsb is_out_of_fuel evs then PgOutOfFuel else PgDone |}
+  else {| pr_events := upto_ask (length typed) evs; pr_left := []; pr_status := PgBlocked |}.
